@@ -157,6 +157,8 @@ func InitShared() {
 }
 
 // sharedHashes returns one hash per shared variable.
+//
+//go:norace
 func sharedHashes(dst []uint64) []uint64 {
 	dst = dst[:0]
 	for _, sv := range sharedVars {
@@ -196,6 +198,7 @@ type epochRun struct {
 	plan       bool // apply the pre-emption plan (second pass)
 }
 
+//go:norace
 func (e *epochRun) addViol(class, op, detail string, task, idx int) {
 	if len(e.viol) < 32 {
 		e.viol = append(e.viol, Violation{Property: e.opt.Property, Class: class, Op: op, Detail: detail, Epoch: e.epIdx, Task: task, Index: idx})
@@ -204,6 +207,8 @@ func (e *epochRun) addViol(class, op, detail string, task, idx int) {
 
 // checkShared evaluates the immutability invariant; called at every context
 // switch and every operation boundary.
+//
+//go:norace
 func (e *epochRun) checkShared(t *Task) {
 	op := "-"
 	task, idx := -1, -1
@@ -307,7 +312,7 @@ func runEpochPass(p *Program, ei int, opt *Options, plan bool) *epochRun {
 	for ti, rs := range e.results {
 		for oi, r := range rs {
 			for _, k := range r.keeps {
-				if !k.scribbled && k.current() != k.copyOf {
+				if !k.stale() && k.current() != k.copyOf {
 					e.addViol(VUnstable, ep.Tasks[ti].Ops[oi].Kind, fmt.Sprintf("%s returned %.60q, which later read %.60q", k.what, k.copyOf, k.current()), ti, oi)
 				}
 			}
